@@ -42,6 +42,14 @@ Lemma same_classes :
                         | Some a, Some b => String.eqb a b | None, None => true | _, _ => false end)
              (combine Gen_Members.M Gen_Bindings.T) = true.
 Proof. vm_compute. reflexivity. Qed.
+
+(* the value equality add() uses for its duplicate test (GeneratedsSuper.__eq__, translated by tr_eq.py) leaves out
+   exactly the two bookkeeping attributes, hence no member attribute of any class: it is the model's obj_eqb *)
+Lemma eq_excluded_exact : set_eqb Gen_Members.eq_excluded ["parent_object_"; "gds_collector_"] = true.
+Proof. vm_compute. reflexivity. Qed.
+
+Lemma eq_sees_members : eq_sees_all_members Gen_Members.eq_excluded Gen_Members.M = true.
+Proof. vm_compute. reflexivity. Qed.
 """
 
 WRONG = "no_such_member_xyz"
@@ -152,6 +160,60 @@ def make_calls(ck, gen, T, mir, sv, parent, children, variants):
                 c_["child"] = {"kind": "same", "index": len(out) - 2}
             out.append(c_)
     return out
+
+
+def one_member_variants(T, c):
+    """a fully populated child of class c and, for each of its members in turn, a copy that differs in exactly that member"""
+    base, alts = [], []
+    bas = {b_["py"]: b_ for b_ in T.bld_attrs(c)}
+    for ea in T.exp_attrs(c):
+        n, kind = ea["py"], ea["kind"]
+        if kind == "int":
+            lo = 1 if (bas.get(n) or {}).get("range") == "pos" else 0
+            base.append([n, {"i": lo + 1}])
+            alts.append((n, {"i": lo + 2}))
+        elif kind in ("float", "double"):
+            base.append([n, {"f": "0.5"}])
+            alts.append((n, {"f": "1.5"}))
+        else:
+            base.append([n, {"s": "v"}])
+            alts.append((n, {"s": "w"}))
+    bks = {b_["py"]: b_ for b_ in T.bld_kids(c)}
+    for ek in T.exp_kids(c):
+        n, b_ = ek["py"], bks.get(ek["py"])
+        if ek["kind"] == "text":
+            base.append([n, {"s": "t"}])
+            alts.append((n, {"s": "u"}))
+        elif ek["kind"] == "obj" and b_ and b_.get("cls") in T.C:
+            alts.append((n, {"o": {"cls": b_["cls"], "kw": []}}))
+        elif ek["kind"] == "objlist" and b_ and b_.get("cls") in T.C:
+            alts.append((n, {"l": [{"cls": b_["cls"], "kw": []}]}))
+    out = []
+    for n, v in alts:
+        kw = [[k, (v if k == n else x)] for k, x in base]
+        if n not in [k for k, _ in base]:
+            kw = kw + [[n, v]]
+        out.append((n, {"cls": c, "kw": kw}))
+    return {"cls": c, "kw": base}, out
+
+
+def variant_cases(ck, T, mir, pairs):
+    """for each (parent, list member, child class): base, every one-member variant (must be stored, no warning), then equal
+    copies of the base and of a variant (must be refused with the duplicate warning)"""
+    cases = []
+    for p, member, c in pairs:
+        base, variants = one_member_variants(T, c)
+        hint = member if len(mir.targets(p, c)) > 1 else None
+        calls = [{"child": {"kind": "obj", "tree": base}, "hint": hint, "force": False, "validate": False, "mark": "variant-base"}]
+        for n, tree in variants:
+            calls.append({"child": {"kind": "obj", "tree": tree}, "hint": hint, "force": False, "validate": False,
+                          "mark": "differs-only-in:" + n})
+        calls.append({"child": {"kind": "obj", "tree": base}, "hint": hint, "force": False, "validate": False, "mark": "equal-copy"})
+        if variants:
+            calls.append({"child": {"kind": "obj", "tree": variants[-1][1]}, "hint": hint, "force": False, "validate": False, "mark": "equal-copy"})
+        for i in range(0, len(calls), 60):
+            cases.append({"enabled": False, "parent": {"cls": p, "kw": []}, "calls": ([calls[0]] if i else []) + calls[i:i + 60]})
+    return cases
 
 
 STORED = [
@@ -325,7 +387,12 @@ def predicate(ck, sv, mir, case, res, enabled):
             else:
                 ok = isinstance(now, dict) and "l" in now and now["l"][:-1] == slot["l"] and now["l"] and now["l"][-1] == value \
                     and held.get(target, 0) == held_before.get(target, 0) + 1
-                if not ok:
+                mark = call.get("mark", "")
+                if not ok and mark.startswith("differs-only-in:") and [2, target] in r["warn"]:
+                    bad("C10:non-equal-child-refused-as-duplicate", "a %s that differs from the one already in %s only in member `%s` is "
+                        "refused as a duplicate (warning, not stored)" % (child_cls, target, mark.split(":", 1)[1]),
+                        expected="stored, no warning")
+                elif not ok:
                     bad("C10:not-appended", "the child was not appended to %s" % target)
         else:
             occupied = slot not in (None, "MISSING", {"l": []}, {"s": ""}, {"i": 0})
@@ -393,13 +460,27 @@ def coq_diff(ck, pairs, label, fixed=True):
     ck.extra["correspondence_calls"] = ck.extra.get("correspondence_calls", 0) + ncalls
 
 
-def build_tables(ck):
+def eq_translate(ck, oblige):
+    """GeneratedsSuper.__eq__ -> the attribute names it leaves out (fail closed); obligations only for C10"""
+    p = subprocess.run([PY, os.path.join(VERIF, "translators", "tr_eq.py")], capture_output=True, text=True, env=impl_env(), timeout=300)
+    try:
+        d = json.loads(p.stdout.strip().splitlines()[-1])
+    except Exception:  # noqa
+        d = {"excluded": [], "overrides": [], "errors": ["tr_eq failed: " + p.stderr[-500:]]}
+    if oblige:
+        ck.oblige("translate:tr_eq", not d["errors"], "; ".join(d["errors"][:10]), kind="translate")
+        ck.oblige("translate:tr_eq:no-class-overrides-equality", not d["overrides"], ", ".join(d["overrides"][:10]), kind="translate")
+    return d
+
+
+def build_tables(ck, with_eq=False):
     tab = bindings.translate(ck)
     if tab is None:
         return None
     if not bindings.gen_bindings(ck, tab):
         return None
-    if not supergen.gen_members(ck, tab):
+    eq = eq_translate(ck, with_eq)
+    if not supergen.gen_members(ck, tab, [] if eq["errors"] else eq["excluded"]):
         return None
     S = schema_translate(ck)
     if S is None:
@@ -422,7 +503,7 @@ def run(ck):
     ck.assumptions = ["components are compared by value (class + fields): python identity is checked on the real code only",
                       "__eq__ of components made by the constructors = field-wise equality (same technical fields)"]
     ck.gate_static()
-    bt = build_tables(ck)
+    bt = build_tables(ck, with_eq=True)
     if bt is None:
         return
     tab, S = bt
@@ -458,6 +539,15 @@ def run(ck):
                     c_["child"]["index"] -= base
             part = [c_ for c_ in part if not (c_["child"]["kind"] == "same" and c_["child"]["index"] < 0)]
             cases.append({"enabled": rng.random() < 0.7, "parent": gen.tree(p, rng.choice([0, 1])), "calls": part})
+    # duplicate test: children differing in exactly one member (each member in turn) vs. equal children
+    list_pairs = [(p, m["name"], mir.dt(m)) for p in classes for m in mir.members(p) if m["container"] and mir.dt(m) in T.C]
+    if not thorough:
+        special = set(c for c in classes if any(m["name"].endswith("_") and m["name"] != "__ANY__" for m in mir.members(c)))
+        rest = [x for x in list_pairs if x[2] not in special]
+        list_pairs = [x for x in list_pairs if x[2] in special] + rng.sample(rest, min(len(rest), 12))
+    vcases = variant_cases(ck, T, mir, list_pairs)
+    cases.extend(vcases)
+    ck.extra["one_member_variant_pairs"] = len(list_pairs)
     ck.extra["parents"] = len(parents)
     ck.extra["pairs_exhaustive"] = thorough
     pairs = run_cases(ck, T, cases, "C10")
